@@ -41,3 +41,14 @@ Section C16.
   Qed.
 End C16.
 Print Assumptions C16_set. Print Assumptions C16_test. Print Assumptions C16_unknown.
+
+(* C07, CLI half: a text with a syntax error is reported as Fail with status 1, whatever rebuild returns *)
+Section C07.
+  Variable doc : Type.
+  Variables (lib_parse : string -> doc) (lib_set : doc -> string -> string -> option string)
+            (lib_rm : doc -> string -> option string) (lib_err : doc -> bool) (lib_rebuild : doc -> string).
+  Corollary C07_test_fails i : lib_err (lib_parse (stdin_text i)) = true ->
+    main doc lib_parse lib_set lib_rm lib_err lib_rebuild arms "test" i = Done ("Fail" ++ nl) false 1.
+  Proof. intros H. rewrite C16_test. cbv zeta. rewrite H. reflexivity. Qed.
+End C07.
+Print Assumptions C07_test_fails.
